@@ -784,6 +784,9 @@ func genC19Inputs(t *rapid.T, maxSets int) ([]gen.Lset, [][]mSeries) {
 
 	base := rapid.SampledFrom([]int64{0, 0, -15, 1000, 1_700_000_000_000}).Draw(t, "base")
 	nsets := rapid.IntRange(0, maxSets).Draw(t, "nsets")
+	if nsets <= 1 && maxSets >= 2 && rapid.IntRange(0, 3).Draw(t, "moresets") > 0 {
+		nsets = rapid.IntRange(2, maxSets).Draw(t, "nsets2")
+	}
 	lastSeen := map[int][]mChunk{} // most recent chunks generated for a label
 	sets := make([][]mSeries, 0, nsets)
 	for si := 0; si < nsets; si++ {
